@@ -308,8 +308,10 @@ fn entries() -> Vec<Entry> {
         }
     });
     {
-        let (k2, sig2) = (k.clone(), sig.clone());
+        // library objects are rebuilt inside the entry (never shared between worker threads)
+        let (k2, sigc) = (k.clone(), sig.to_compact_bytes(None));
         bytes_entry!("PublicKey::from_bytes", vec![pk.to_bytes().unwrap(), pk_unc.to_bytes().unwrap()], move |b: &[u8]| {
+            let Ok(sig2) = Signature::from_compact_bytes(&sigc) else { return };
             if let Ok(p) = mark(PublicKey::from_bytes(b)) {
                 let _ = p.to_compressed();
                 let _ = p.to_decompressed();
@@ -381,8 +383,9 @@ fn entries() -> Vec<Entry> {
         vec![vec![0x11; 32], vec![0u8; 32], nm1, n, np1, pf, vec![0xff; 32], half]
     };
     {
-        let (pk2, sig2) = (pk.clone(), sig.clone());
+        let (pk2, sigc) = (pk.clone(), sig.to_compact_bytes(None));
         bytes_entry!("ECDSA::verify_hashbuf(digest)", digest_seeds(), move |b: &[u8]| {
+            let Ok(sig2) = Signature::from_compact_bytes(&sigc) else { return };
             let _ = mark(ECDSA::verify_hashbuf(b, &pk2, &sig2));
         });
     }
@@ -393,8 +396,9 @@ fn entries() -> Vec<Entry> {
         });
     }
     {
-        let sig2 = Signature::from_compact_bytes(&sig.to_compact_bytes(None)).unwrap();
+        let sigc = sig.to_compact_bytes(None);
         bytes_entry!("Signature::recover_public_key_from_digest(digest)", digest_seeds(), move |b: &[u8]| {
+            let Ok(sig2) = Signature::from_compact_bytes(&sigc) else { return };
             let _ = mark(sig2.recover_public_key_from_digest(b));
         });
     }
